@@ -182,8 +182,10 @@ Definition x_lty (x : exts) : lty := match x_list x with Some l => l | None => L
 Definition field_exts (f : field) : exts :=
   match f_opts f with FOpts v l j k =>
     {| x_validate := Some (effective_validate v); x_list := l; x_j5 := j; x_key := k |} end.
-Definition child_exts (f : field) (v : option fcon) : exts :=
-  match f_opts f with FOpts _ _ _ k => {| x_validate := v; x_list := None; x_j5 := None; x_key := k |} end.
+(* array items inherit the field's list rules; map values do not *)
+Definition child_exts (f : field) (v : option fcon) (inherit_list : bool) : exts :=
+  match f_opts f with FOpts _ l _ k =>
+    {| x_validate := v; x_list := if inherit_list then l else None; x_j5 := None; x_key := k |} end.
 
 (* ---------------------------------------------------------------- buildScalarType *)
 Definition unsupported_rule (r : numrules) : bool :=
@@ -285,9 +287,9 @@ Definition build_string (x : exts) : res sproto :=
     let entity :=
       match x_key x with
       | None => None
-      | Some (PsmKey true _) => Some EKPrimary
-      | Some (PsmKey false (Some t)) => Some (EKForeign t)
-      | Some (PsmKey false None) => Some EKNone
+      | Some (PsmKey true _ tn) => Some (EntityK EKPrimary tn)
+      | Some (PsmKey false (Some t) tn) => Some (EntityK (EKForeign t) tn)
+      | Some (PsmKey false None tn) => Some (EntityK EKNone tn)
       end in
     ROk (PKey (key_format_of fmt2 kf) entity fk))))).
 
@@ -503,7 +505,8 @@ Definition build_message_field (st : sset) (f : field) (x : exts) : outcome (sse
                           | Some _ => Ok st
                           | None => obind (rec ((k, Placeholder) :: st) m) (fun '(st1, r) => Ok (update st1 k (Linked r)))
                           end) (fun st2 =>
-                   Ok (st2, if wrapper then FOneof k None None None else FObject k flatten None None))
+                   Ok (st2, if wrapper then FOneof k None (match x_lty x with LOneof t => Some t | _ => None end) None
+                            else FObject k flatten None None))
                end
       end)
   | _ => Err "descriptor: message field without a message type"
@@ -520,6 +523,7 @@ Definition build_schema (st : sset) (f : field) (x : exts) : outcome (sset * fsc
 (* one field of messageProperties: the property it yields *)
 Definition build_field_prop (st : sset) (f : field) : outcome (sset * prop) :=
   let x := field_exts f in
+  let required := match x_validate x with Some (FCon (Some true) _ _) => true | _ => false end in
   match f_card f with
   | CRepeated =>
       let '(rules, items) := match x_vty x with
@@ -527,8 +531,8 @@ Definition build_field_prop (st : sset) (f : field) : outcome (sset * prop) :=
                              | _ => (None, None)
                              end in
       let ext := match x_j5 x with Some (JArray sf) => Some sf | _ => None end in
-      obind (build_schema st f (child_exts f items)) (fun '(st1, item) =>
-      Ok (st1, Prop_ (f_json f) [f_num f] false false (f_descr f) (FArray item rules ext)))
+      obind (build_schema st f (child_exts f items true)) (fun '(st1, item) =>
+      Ok (st1, Prop_ (f_json f) [f_num f] required false (f_descr f) (FArray item rules ext)))
   | CMap kk =>
       if negb (kind_eqb kk KString) then Err "map keys must be strings for J5"
       else
@@ -537,10 +541,9 @@ Definition build_field_prop (st : sset) (f : field) : outcome (sset * prop) :=
                                 | _ => (None, None)
                                 end in
         let ext := match x_j5 x with Some (JMap sf) => Some sf | _ => None end in
-        obind (build_schema st f (child_exts f values)) (fun '(st1, item) =>
-        Ok (st1, Prop_ (f_json f) [f_num f] false false (f_descr f) (FMap item rules ext)))
+        obind (build_schema st f (child_exts f values false)) (fun '(st1, item) =>
+        Ok (st1, Prop_ (f_json f) [f_num f] required false (f_descr f) (FMap item rules ext)))
   | c =>
-      let required := match x_validate x with Some (FCon (Some true) _ _) => true | _ => false end in
       let optional := negb required && (match c with COptional => true | _ => false end) in
       obind (build_schema st f x) (fun '(st1, s) =>
       Ok (st1, Prop_ (f_json f) [f_num f] required optional (f_descr f) s))
@@ -812,8 +815,14 @@ Definition message_factory (st : sset) (s : fschema) (f : field) : outcome unit 
 (* newFieldFactory *)
 Definition leaf_factory (st : sset) (s : fschema) (f : field) : outcome unit :=
   match s with
-  | FEnum _ _ _ _ =>
-      if kind_eqb (f_kind f) KEnum then Ok tt else Err "EnumField is of another kind"
+  | FEnum k _ _ _ =>
+      if kind_eqb (f_kind f) KEnum then
+        (* reading the value goes through EnumField.Schema(), a type assertion of Ref.To to EnumSchema *)
+        match lookup st k with
+        | Some (Linked (REnum _ _ _ _ _)) => Ok tt
+        | _ => Panic "EnumField.Schema: Ref.To.(*EnumSchema)"
+        end
+      else Err "EnumField is of another kind"
   | FScalar (Some (k, wkt)) _ =>
       match wkt with
       | [] => if kind_eqb (f_kind f) k then Ok tt else Err "ScalarField is of another proto kind"
